@@ -523,3 +523,108 @@ def rule_T9(ctx):
         if not ok:
             r.finding(f["path"], "elsejump:arms-not-deferred", loc(arm), "the ElseJump arm does not push its ConditionItem.node_index entries onto the root stack: conditional arms of an else-chain would never be emitted out of line")
     return r
+
+
+# --------------------------------------------------------------------------------------- T11 / T12
+
+
+def _walk_no_try(node):
+    """walk() that does not descend into the arms of `?` desugarings (their `return` is the error exit)."""
+    stack = [node]
+    while stack:
+        n = stack.pop()
+        if isinstance(n, dict):
+            yield n
+            if n.get("k") == "Match" and n.get("src") == "TryDesugar":
+                stack.append(n["scrut"])
+                continue
+            for v in n.values():
+                if isinstance(v, (dict, list)):
+                    stack.append(v)
+        elif isinstance(n, list):
+            stack.extend(x for x in n if isinstance(x, (dict, list)))
+
+
+def rule_T11(ctx):
+    F = ctx.F
+    r = RuleResult("T11", "root-terminators: the loop that appends a root's end instructions considers every one of them (no early exit) and pushes the one it is looking at")
+    bf = [f for f in builder_fns(F) if f.get("name") == "build" and f.get("vis") == "Public"]
+    if not bf:
+        r.anchor_missing("build()", "public fn build not found")
+        return r
+    f = bf[0]
+    loops = []
+    for n in walk(f["hir"]):
+        if n.get("k") == "Match" and n.get("src") == "ForLoopDesugar":
+            st = n["scrut"].get("ty", "")
+            args = n["scrut"].get("args") or []
+            ity = args[0].get("ty", "") if args else ""
+            if ("(" + INSTR) in st or ("(" + INSTR) in ity:
+                loops.append(n)
+    uniq = {}
+    for lp in loops:
+        uniq.setdefault(loc(lp), lp)
+    loops = list(uniq.values())
+    r.floor("loops over end-instruction lists in build()", len(loops), 1)
+    for lp in loops:
+        exits = []
+        pushes = 0
+        for n in _walk_no_try(lp["arms"]):
+            if n.get("k") in ("Break", "Continue", "Ret") and not (n.get("exp") and any("desugar" in x for x in n["exp"])):
+                exits.append((n["k"], loc(n)))
+            if n.get("k") == "MethodCall" and n.get("def") == PUSH_INSTR:
+                pushes += 1
+        r.examine((f["path"], loc(lp)), True, {"loop": loc(lp), "early_exits": exits, "push_instruction_calls": pushes})
+        for k, w in exits:
+            r.finding(f["path"], "terminator-loop-exit:" + k, w, "the loop appending a root's end instructions can leave early (%s): a later end instruction (the JumpTo that re-joins, the EndExpression) would never be appended and the block would fall through" % k)
+        if pushes == 0:
+            r.finding(f["path"], "terminator-loop-no-push", loc(lp), "the end-instruction loop never pushes an instruction")
+    return r
+
+
+def rule_T12(ctx):
+    F = ctx.F
+    r = RuleResult("T12", "containing-expression inheritance: a child build node inherits its parent's containing_expression_jump; only a nested expression body and the tree root start a new one")
+    fns = builder_fns(F)
+    # the NestedExpression arm span
+    ms = [x for x in dispatch_matches(F, DEFN, ["garnish_lang_compiler"], 0.8) if "::build::" in x[0]["path"]]
+    nested_range = None
+    if ms:
+        f0, m, _n = ms[0]
+        for alts, _g, arm in arm_table(m):
+            for a in alts:
+                if a[0] == "V" and last(a[1]) == "NestedExpression":
+                    sp = arm["sp"]
+                    parts = sp.split(":")
+                    nested_range = (parts[0], int(parts[1]), int(sp.split("-")[1].split(":")[0]))
+    if nested_range is None:
+        r.anchor_missing("NestedExpression arm", "not found in handle_parse_node")
+        return r
+    n_sites = 0
+    for f in sorted(fns, key=lambda f: f["path"]):
+        body = Body(f)
+        for d, n in hirq.calls_in(f["hir"]):
+            if "BuildNode" not in d or not last(d).startswith("new"):
+                continue
+            args = call_args(n)
+            if len(args) < 2:
+                continue
+            n_sites += 1
+            kinds = set()
+            for o in body.origins(args[1]):
+                if o.get("k") == "Field" and o.get("name") == "containing_expression_jump":
+                    kinds.add("inherited")
+                else:
+                    kinds.add(_classify(o))
+            file, line = n["sp"].split(":")[0], int(n["sp"].split(":")[1])
+            in_nested = file == nested_range[0] and nested_range[1] <= line <= nested_range[2]
+            in_build = f.get("name") == "build" and f.get("vis") == "Public"
+            r.examine((f["path"], loc(n)), True, {"fn": last(f["path"]), "where": loc(n), "containing_expression_jump_from": sorted(kinds), "starts_new_expression": in_nested or in_build})
+            if in_nested or in_build:
+                if kinds - {"jump_table_len"}:
+                    r.finding(f["path"], "containing-new:" + "/".join(sorted(kinds)), loc(n), "a new expression's containing_expression_jump originates from %s; it must be its own jump-table entry (get_jump_table_len())" % sorted(kinds))
+            elif kinds != {"inherited"}:
+                r.finding(f["path"], "containing-not-inherited:" + "/".join(sorted(kinds - {"inherited"})), loc(n),
+                          "a child node is given containing_expression_jump from %s instead of inheriting its parent's: a reapply (^~) inside it would jump to the wrong entry point" % sorted(kinds - {"inherited"}))
+    r.floor("BuildNode constructions", n_sites, 25)
+    return r
